@@ -359,7 +359,7 @@ def showOptS : Option String → String
   | some s => s
 
 /-- header names the dump looks up -/
-def probeHeaders : List String := ["x-a", "x-b", "x-g"]
+def probeHeaders : List String := ["x-a", "x-b", "x-g", "host"]
 /-- type tags of the probe types (extensions `E1..E3`, app data `A,B,C`) -/
 def probeTags : List Nat := [1, 2, 3]
 
@@ -375,6 +375,9 @@ def dump (cfg : Cfg) (i : Inner) : String :=
   ";X=" ++ joinWith "," (probeTags.map fun t => showOpt (extGet i.extensions t)) ++
   ";c=" ++ showOpt i.connData ++
   ";D=" ++ joinWith "," (probeTags.map fun t => showOpt (appDataGet cfg i t)) ++
+  -- `connection_info().host()` (cached in the request extensions on first use): `Host` header,
+  -- else `AppConfig::default().host()`
+  ";ci=" ++ (match headerGet i.head.headers "host" with | some h => h | none => "localhost:8080") ++
   ";n=" ++ showOptS (matchName cfg i) ++
   ";t=" ++ showOptS (matchPattern cfg i)
 
